@@ -13,7 +13,9 @@ import (
 	"github.com/cosmos/cosmos-sdk/runtime"
 	sdk "github.com/cosmos/cosmos-sdk/types"
 	authtypes "github.com/cosmos/cosmos-sdk/x/auth/types"
+	bankkeeper "github.com/cosmos/cosmos-sdk/x/bank/keeper"
 	banktypes "github.com/cosmos/cosmos-sdk/x/bank/types"
+	distrkeeper "github.com/cosmos/cosmos-sdk/x/distribution/keeper"
 	distrtypes "github.com/cosmos/cosmos-sdk/x/distribution/types"
 	govtypes "github.com/cosmos/cosmos-sdk/x/gov/types"
 	minttypes "github.com/cosmos/cosmos-sdk/x/mint/types"
@@ -144,8 +146,8 @@ func (e *Env) rebuild() {
 		a.Logger(),
 		e.gov,
 		a.AccountKeeper,
-		&recBank{e},
-		&recDistr{e},
+		&recBank{e, a.BankKeeper},
+		&recDistr{e, a.DistrKeeper},
 	)
 	hs := []types.FundraisingHooks{}
 	for i, f := range e.listen {
@@ -246,7 +248,13 @@ func (e *Env) encAddrStr(s string) string {
 }
 
 // ---- recording wrappers ----
-type recBank struct{ e *Env }
+// recBank records the transfers the module makes.  It embeds the application's bank keeper, so that a method added to
+// the module's expected-keeper interface (a read such as GetBalance) is served by the real keeper without a change
+// here; only the methods that move coins are intercepted
+type recBank struct {
+	e *Env
+	bankkeeper.Keeper
+}
 
 func (b *recBank) nAuctions() uint64 {
 	n, _ := b.e.k.AuctionSeq.Peek(b.e.ctx)
@@ -317,7 +325,10 @@ func (b *recBank) SendCoinsFromModuleToAccount(ctx context.Context, senderModule
 	return nil
 }
 
-type recDistr struct{ e *Env }
+type recDistr struct {
+	e *Env
+	distrkeeper.Keeper
+}
 
 func (d *recDistr) FundCommunityPool(ctx context.Context, amount sdk.Coins, sender sdk.AccAddress) error {
 	if err := d.e.app.DistrKeeper.FundCommunityPool(ctx, amount, sender); err != nil {
